@@ -112,3 +112,19 @@ package internal
 //@   facet C03
 //@   modifies buf[*]
 //@   ensures [C03:returns-only-after-crypto-rand-filled-the-buffer] ncalls(Read) == 1 && arg(Read, 1, b) == buf && retis(Read, 1, 1, nil)
+
+// ---- strengthened after the fourth round of seeded changes: a key passes on exactly what its secret returns
+// (bytes handed back together with an error included - intermediateKeyFromEKR wipes them) ----
+//@ func (*CryptoKey).WithBytesFunc
+//@   names k, action
+//@   facet C10
+//@   opt no-frame
+//@   requires k != nil && k.secret != nil
+//@   ensures [C10:what-the-secret-returns-is-passed-on-unchanged] result == ret(WithBytesFunc, 1, 0) && err == ret(WithBytesFunc, 1, 1)
+
+//@ func (*CryptoKey).WithBytes
+//@   names k, action
+//@   facet C10
+//@   opt no-frame
+//@   requires k != nil && k.secret != nil
+//@   ensures [C10:what-the-secret-returns-is-passed-on-unchanged] result == ret(WithBytes, 1, 0)
